@@ -169,6 +169,127 @@ fn check_scales(n: usize, ladder: &[i32]) -> Res {
     r
 }
 
+fn cmul(a: C, b: C) -> C {
+    (a.0 * b.0 - a.1 * b.1, a.0 * b.1 + a.1 * b.0)
+}
+fn cdiv(a: C, b: C) -> C {
+    let d = b.0 * b.0 + b.1 * b.1;
+    ((a.0 * b.0 + a.1 * b.1) / d, (a.1 * b.0 - a.0 * b.1) / d)
+}
+
+/// split and merge on transforms of real polynomials that are CHOSEN IN THE TRANSFORM DOMAIN, against the
+/// definition: with zeta_k the root evaluated in slot k (read off fft(X)) and xi_j those of the half-size
+/// transform, the two slots k, k' with zeta^2 = xi_j give f0[j] = (F[k] + F[k'])/2, f1[j] = (F[k] - F[k'])/(2 zeta_k).
+/// The family is an R-basis of C^n (e_k and i e_k), every mixed pair on partner slots, and dense vectors: a fast
+/// path chosen by looking at one entry (purely real, zero, ...) is exercised with every kind of partner.
+fn check_split_domain(n: usize) -> Res {
+    let mut r = Res::default();
+    if n < 2 {
+        return r;
+    }
+    let x_n: Vec<C> = (0..n).map(|i| if i == 1 % n { (1.0, 0.0) } else { (0.0, 0.0) }).collect();
+    let x_h: Vec<C> = (0..n / 2).map(|i| if i == 1 % (n / 2) { (1.0, 0.0) } else { (0.0, 0.0) }).collect();
+    let (roots_n, roots_h) = match (catch(|| fh::complex_fft(&x_n)), catch(|| fh::complex_fft(&x_h))) {
+        (Ok(a), Ok(b)) => (a, if n == 2 { vec![(0.0, 0.0)] } else { b }),
+        _ => return r,
+    };
+    // partner slots: for each half-size slot j the two full-size slots whose root squares to xi_j (n = 2: xi = the constant map)
+    let mut partner: Vec<(usize, usize)> = vec![];
+    for j in 0..n / 2 {
+        let ks: Vec<usize> = (0..n)
+            .filter(|&k| {
+                let sq = cmul(roots_n[k], roots_n[k]);
+                if n == 2 {
+                    true
+                } else {
+                    (sq.0 - roots_h[j].0).abs() < 1e-9 && (sq.1 - roots_h[j].1).abs() < 1e-9
+                }
+            })
+            .collect();
+        if ks.len() != 2 {
+            return r; // the slot structure is not what the definition expects: the basis parts report that
+        }
+        partner.push((ks[0], ks[1]));
+    }
+    // every vector of the family is the transform of a REAL polynomial: entries on conjugate slots are conjugates
+    let conj_slot: Vec<usize> = (0..n).map(|k| (0..n).find(|&c| (roots_n[c].0 - roots_n[k].0).abs() < 1e-9 && (roots_n[c].1 + roots_n[k].1).abs() < 1e-9).unwrap_or(k)).collect();
+    let symmetric = |assign: &[(usize, C)], background: bool| -> Option<Vec<C>> {
+        let mut f: Vec<Option<C>> = vec![None; n];
+        for &(k, v) in assign {
+            for (slot, val) in [(k, v), (conj_slot[k], (v.0, -v.1))] {
+                match f[slot] {
+                    Some(w) if w != val => return None,
+                    _ => f[slot] = Some(val),
+                }
+            }
+        }
+        let mut out = vec![(0.0, 0.0); n];
+        for k in 0..n {
+            out[k] = match f[k] {
+                Some(v) => v,
+                None if background => {
+                    let (a, b) = (k.min(conj_slot[k]), k.max(conj_slot[k]));
+                    let v = ((((a * 37 + 11) % 101) as f64) - 50.0, (((b * 53 + 7) % 89) as f64) - 44.0);
+                    if conj_slot[k] == k {
+                        (v.0, 0.0)
+                    } else if k == a {
+                        v
+                    } else {
+                        (v.0, -v.1)
+                    }
+                }
+                None => (0.0, 0.0),
+            };
+        }
+        Some(out)
+    };
+    let mut family: Vec<(String, Vec<C>)> = vec![];
+    let ks: Vec<usize> = if n <= 256 { (0..n).collect() } else { (0..n).step_by(n / 128).chain([1, n - 1]).collect() };
+    for &k in &ks {
+        for (nv, v) in [("1", (16384.0, 0.0)), ("i", (0.0, 16384.0))] {
+            if let Some(f) = symmetric(&[(k, v)], false) {
+                family.push((format!("{} at slot {} (and its conjugate)", nv, k), f));
+            }
+        }
+    }
+    let js: Vec<usize> = if n <= 256 { (0..n / 2).collect() } else { (0..n / 2).step_by(n / 64).chain([n / 2 - 1]).collect() };
+    for &j in &js {
+        let (k, k2) = partner[j];
+        for (na, va) in [("1", (3.0, 0.0)), ("i", (0.0, 5.0)), ("1+i", (7.0, -2.0)), ("0", (0.0, 0.0))] {
+            for (nb, vb) in [("1", (11.0, 0.0)), ("i", (0.0, -13.0)), ("1+i", (-1.5, 4.0)), ("0", (0.0, 0.0))] {
+                for bg in [false, true] {
+                    if let Some(f) = symmetric(&[(k, va), (k2, vb)], bg) {
+                        family.push((format!("{} at slot {}, {} at slot {}{}", na, k, nb, k2, if bg { ", dense elsewhere" } else { "" }), f));
+                    }
+                }
+            }
+        }
+    }
+    for (name, f) in family {
+        let fnorm = f.iter().map(|c| c.0 * c.0 + c.1 * c.1).sum::<f64>().sqrt().max(1e-300);
+        let case = json!({"kind":"split-domain","n":n,"vector":name});
+        let res = catch(|| fh::complex_split_fft(&f)).and_then(|(f0, f1)| catch(|| fh::complex_merge_fft(&f0, &f1)).map(|back| (f0, f1, back)));
+        match res {
+            Err(e) => record(&mut r, Err(e), format!("fft:split-domain:n={}", n), |_| String::new(), case, 2),
+            Ok((f0, f1, back)) => {
+                let mut worst: f64 = 0.0;
+                for j in 0..n / 2 {
+                    let (k, k2) = partner[j];
+                    let w0 = ((f[k].0 + f[k2].0) / 2.0, (f[k].1 + f[k2].1) / 2.0);
+                    let w1 = cdiv(((f[k].0 - f[k2].0) / 2.0, (f[k].1 - f[k2].1) / 2.0), roots_n[k]);
+                    worst = worst.max((f0[j].0 - w0.0).abs()).max((f0[j].1 - w0.1).abs()).max((f1[j].0 - w1.0).abs()).max((f1[j].1 - w1.1).abs());
+                }
+                for k in 0..n {
+                    worst = worst.max((back[k].0 - f[k].0).abs()).max((back[k].1 - f[k].1).abs());
+                }
+                let rel = if worst.is_finite() { worst / (TOL * fnorm) } else { f64::INFINITY };
+                record(&mut r, Ok(rel), format!("fft:split-domain:n={}", n), |x| format!("n={}: split / merge on the transform-domain vector [{}] is off by {:.3e} x the allowed 2^-30 ||F|| (against the definition over partner slots)", n, name, x), case, 2);
+            }
+        }
+    }
+    r
+}
+
 fn record(r: &mut Res, rel: Result<f64, String>, key: String, what: impl Fn(f64) -> String, case: Value, calls: u64) {
     r.cases += 1;
     r.calls += calls;
@@ -278,6 +399,18 @@ pub fn run(tier: Tier) {
     }
     ps.set("worst_error_over_allowance_log2", json!(sworst.max(1e-300).log2()));
     ps.exhaustive = tier.thorough();
+    let dres: Vec<(usize, Res)> = sizes.par_iter().map(|&n| (n, check_split_domain(n))).collect();
+    let mut pd = Part::new("split_merge_on_transform_domain_vectors", "every n: split_fft / merge_fft on transforms of real polynomials chosen in the transform domain (conjugate slots carry conjugate values): a real or an imaginary value on one slot (all slots for n <= 256, 130 beyond), every combination of {real, imaginary, complex, zero} x {real, imaginary, complex, zero} on the two partner slots of a half-size slot, alone and inside a dense vector; oracle: the definition over partner slots (roots read off fft(X)) and merge(split(F)) = F, tolerance 2^-30 ||F||");
+    for (n, r) in dres {
+        pd.states += r.cases;
+        pd.transitions += r.calls;
+        pd.validated += r.cases;
+        pd.outcome(format!("n={} worst error = 2^{:.1} of the allowance", n, r.worst.max(1e-300).log2()));
+        for f in r.found {
+            ctx.violation(f.key, f.what, f.case);
+        }
+    }
+    pd.exhaustive = true;
     let mut worst = (0.0f64, 0.0f64, 0.0f64);
     for (n, (b, p, c)) in res {
         for (part, r, w) in [(&mut pb, &b, &mut worst.0), (&mut pp, &p, &mut worst.1), (&mut pc, &c, &mut worst.2)] {
@@ -301,6 +434,7 @@ pub fn run(tier: Tier) {
     ctx.add_part(pp);
     ctx.add_part(pc);
     ctx.add_part(ps);
+    ctx.add_part(pd);
 
     // informational: distance of the precomputed table from cos/sin (not a verdict)
     let table = fh::complex_table();
@@ -318,6 +452,9 @@ pub fn run(tier: Tier) {
 
 pub fn replay(case: &Value) -> Result<Option<String>, String> {
     let n = case.get("n").and_then(|x| x.as_u64()).ok_or("n")? as usize;
+    if case.get("kind").and_then(|x| x.as_str()) == Some("split-domain") {
+        return Ok(check_split_domain(n).found.into_iter().next().map(|f| f.what));
+    }
     if case.get("kind").and_then(|x| x.as_str()) == Some("scaled") {
         let ka = case.get("ka").and_then(|x| x.as_i64()).ok_or("ka")? as i32;
         return Ok(check_scales(n, &[ka]).found.into_iter().next().map(|f| f.what));
